@@ -26,15 +26,27 @@ theorem dispatch_eq_ref_partial (sat : Nat → Bytes → Bool) (noRoute : Bool) 
     (req : Req) (hp : req.path.head? = some '/')
     (hOw : dReplaced sat R req (cutAny req.path) = false) :
     serve sat (build noRoute script) req = refMatch sat noRoute R req (cutAny req.path) := by
-  have hguard : ∀ m ∈ methodsOf req, dReplaced1 sat R m (cutAny req.path) = false := by
-    intro m hm
-    exact Bool.eq_false_iff.mpr ((List.any_eq_false.mp hOw) m hm)
-  have hlook : ∀ m ∈ methodsOf req, lookupM sat (build noRoute script) m req.path =
+  have hOwM : dReplaced1 sat R req.method (cutAny req.path) = false := by
+    unfold dReplaced at hOw
+    cases h : dReplaced1 sat R req.method (cutAny req.path) with
+    | false => rfl
+    | true => simp [h] at hOw
+  have hlookM : lookupM sat (build noRoute script) req.method req.path =
+      (refRoute sat R req.method (cutAny req.path)).map fun r =>
+        (leafOf r, pushAll Ctx.fresh ((routeMatch sat r (cutAny req.path)).getD [])) :=
+    lemma_lookupM sat noRoute script R hR hN hstd req.method req.path hp hOwM
+  -- the other method trees are consulted only when no route of the request method matches
+  have hlook : refRoute sat R req.method (cutAny req.path) = none → ∀ m ∈ stdMethods,
+      lookupM sat (build noRoute script) m req.path =
       (refRoute sat R m (cutAny req.path)).map fun r =>
         (leafOf r, pushAll Ctx.fresh ((routeMatch sat r (cutAny req.path)).getD [])) := by
-    intro m hm
-    exact lemma_lookupM sat noRoute script R hR hN hstd m req.path hp (hguard m hm)
-  rw [lemma_serve_lookup, hlook req.method (lemma_mem_methodsOf req _ (Or.inl rfl))]
+    intro hnone m hm
+    have hg : dReplaced1 sat R m (cutAny req.path) = false := by
+      unfold dReplaced at hOw
+      simp only [hOwM, Bool.false_or, hnone, Option.isNone_none, Bool.true_and] at hOw
+      exact Bool.eq_false_iff.mpr ((List.any_eq_false.mp hOw) m hm)
+    exact lemma_lookupM sat noRoute script R hR hN hstd m req.path hp hg
+  rw [lemma_serve_lookup, hlookM]
   unfold refMatch
   cases href : refRoute sat R req.method (cutAny req.path) with
   | some ρ =>
@@ -74,7 +86,7 @@ theorem dispatch_eq_ref_partial (sat : Nat → Bytes → Bool) (noRoute : Bool) 
       unfold allowedSet
       apply List.filter_congr
       intro m hm
-      rw [hlook m (lemma_mem_methodsOf req _ (Or.inr hm))]
+      rw [hlook href m hm]
       unfold refRoute
       rw [Option.isSome_map, lemma_pick_isSome]
       cases cands sat R m (cutAny req.path) <;> simp
@@ -579,30 +591,44 @@ def exReq : Req := ⟨G, B "/users/42", [B "id"]⟩
 def exReq405 : Req := ⟨B "PUT", B "/users/7", []⟩
 
 /-- the hypotheses of `dispatch_eq_ref_partial` hold for a script with a constrained parameter route, a
-static sibling, a second method, a wildcard registered through two groups and a root route; the
-outcome is the constrained route with its binding -/
+static sibling, a second method, a wildcard registered through two groups, a root route and two routes of a
+mounted sub-router; the outcome is the constrained route with its binding -/
 example : ∃ R, specRoutes exScript = some R ∧ normal R = true ∧ (∀ g ∈ exScript, g.method ∈ stdMethods) ∧
-    exReq.path.head? = some '/' ∧ dShadow R exReq (cutAny exReq.path) = false ∧
-    dCfall exSat R exReq (cutAny exReq.path) = false ∧
+    exReq.path.head? = some '/' ∧ dReplaced exSat R exReq (cutAny exReq.path) = false ∧
     (serve exSat (build false exScript) exReq).ran = some 0 ∧
     (serve exSat (build false exScript) exReq).lookups = [(B "id", B "42")] :=
-  ⟨_, rfl, by decide, by decide, by decide, by decide, by decide, by decide, by decide⟩
+  ⟨_, rfl, by decide, by decide, by decide, by decide, by decide, by decide⟩
 
-/-- … and for a request that ends in 405 with two methods in `Allow` -/
+/-- … for a request that ends in 405 (the only other method with a matching route is POST) -/
 example : ∃ R, specRoutes exScript = some R ∧ normal R = true ∧
-    dShadow R exReq405 (cutAny exReq405.path) = false ∧
-    dCfall exSat R exReq405 (cutAny exReq405.path) = false ∧
+    dReplaced exSat R exReq405 (cutAny exReq405.path) = false ∧
     cands exSat R exReq405.method (cutAny exReq405.path) = [] ∧
     (serve exSat (build false exScript) exReq405).status = 405 ∧
     (serve exSat (build false exScript) exReq405).allow = [B "POST"] :=
-  ⟨_, rfl, by decide, by decide, by decide, by decide, by decide, by decide⟩
+  ⟨_, rfl, by decide, by decide, by decide, by decide, by decide⟩
 
-/-- `lookup_sound` is not vacuous on a script that *is* in a recorded class (K01b) -/
-example : (serve anySat (build false k01bScript) ⟨G, B "/users/admin/q/y", []⟩).ran = some 1 := by decide
-
-/-- the equality now also covers routes that name a shared parameter position differently (the old class `names`) -/
-example : ∃ R, specRoutes k01aScript = some R ∧ dShadow R k01aReq (cutAny k01aReq.path) = false ∧
-    dCfall anySat R k01aReq (cutAny k01aReq.path) = false ∧ dNames R k01aReq (cutAny k01aReq.path) = true :=
+/-- … and for a route of the mounted sub-router (`Mount("api/", sub)`, `sub.Group("/items").GET("/:id")`) -/
+example : ∃ R, specRoutes exScript = some R ∧
+    dReplaced exSat R ⟨G, B "/api/items/7", [B "id"]⟩ (cutAny (B "/api/items/7")) = false ∧
+    (serve exSat (build false exScript) ⟨G, B "/api/items/7", [B "id"]⟩).ran = some 5 ∧
+    (serve exSat (build false exScript) ⟨G, B "/api", []⟩).ran = some 6 :=
   ⟨_, rfl, by decide, by decide, by decide⟩
+
+/-- the class is per request: a replaced leaf in ANOTHER method's tree does not exclude a request that its own
+method's tree answers (`GET /u/:id`, `POST /u/:id` (constraint 0), `POST /u/:name` (constraint 1); `GET /u/123`) -/
+example : ∃ R, specRoutes [reg "GET" "/u/:id", reg "POST" "/u/:id" [(B "id", 0)], reg "POST" "/u/:name" [(B "name", 1)]] = some R ∧
+    dReplaced k01cSat R ⟨G, B "/u/123", []⟩ (cutAny (B "/u/123")) = false ∧
+    dReplaced1 k01cSat R (B "POST") (cutAny (B "/u/123")) = true :=
+  ⟨_, rfl, by decide, by decide⟩
+
+/-- `lookup_sound` / `lookup_priority` are not vacuous on a script that *is* in the recorded class (K01c): the last
+registration of the shape runs and reads its own binding -/
+example : (serve k01cSat (build false k01cScript) k01cReq2).ran = some 1 ∧
+    (serve k01cSat (build false k01cScript) k01cReq2).lookups = [(B "name", B "abc")] := by decide
+
+/-- the equality also covers requests of the repaired classes `names`, `shadow`, `cfall` (the as-shipped witnesses) -/
+example : ∃ R, specRoutes k01aScript = some R ∧ dReplaced anySat R k01aReq (cutAny k01aReq.path) = false ∧
+    dNames R k01aReq (cutAny k01aReq.path) = true :=
+  ⟨_, rfl, by decide, by decide⟩
 
 end Rivaas.C01
